@@ -195,5 +195,27 @@ def replay(run, path):
     i = rep.get("call_index", 0)
     print("status:", res["status"])
     print("call", i, json.dumps(calls.get(i), indent=1)[:3000])
+    # verdict for that call, from the script's own call line
+    bad = res["status"] != 0
+    cl = [l for l in script if l.startswith("call\t")]
+    envnull = any(l == "env\t~" for l in script)
+    envline = [l for l in script if l.startswith("env\t") and l != "env\t~"]
+    if not bad and i < len(cl):
+        f = cl[i].split("\t")
+        api, path, argv, envp, mode, ret, err = f[1], f[2], f[3], f[4], int(f[5]), f[6], f[7]
+        c = calls.get(i)
+        if c is None or len(c["real"]) != 1:
+            bad = True
+        else:
+            r = c["real"][0]
+            exp_env = envp if api == "execve" else ("~" if envnull else (envline[-1].split("\t")[1] if envline else "[]"))
+            bad = r[2] != api or r[3] != "1" or r[4] != path or r[5] != argv or r[6] != exp_env
+            rt = c["ret"]
+            if not bad and mode == 0:
+                bad = rt is None or rt[2] != ret or rt[3] != err or rt[4] != "1" or any(h not in ("-", "~") for (_, h) in c["sinks"].get("after", []))
+            if not bad and mode != 0:
+                bad = rt is None or rt[2] != "child" or rt[3] != "0"
+            bad = bad or c["deep"] is None or c["deep"][2] != "1"
+    print("REPRODUCED" if bad else "not reproduced: one real call with the caller's own arguments, result delivered")
     run.cleanup()
-    return 0
+    return 1 if bad else 0
